@@ -138,7 +138,7 @@ def main(tier):
             "states": r.distinct + g.distinct, "transitions": r.generated + g.generated, "traces_validated_against_impl": len(cases), "solves": n_solves, "class_comparisons": n_pairs,
             "samples": [{"mol": c["mol"], "walk": c["walk"]} for c in cases[:2]], "calibration_largest_difference_over_bound": worst, "walks_exported": len(walks),
             "evaluations": len(cases), "distinct_nontrivial": len({common.sha([c["mol"], c["walk"]]) for c in cases if any(s["start"] != "cold" for s in c["walk"])}),
-            "rule": "walks of length 2 over 2 geometries x 3 start densities x 14 solver configurations exported by TLC, sampled by VERIF_SEED plus one cold+prev walk per configuration; non-trivial = some solve restarts from a previous or perturbed density", "exhaustive": False,
+            "rule": "walks of length 2 over 2 geometries x 3 start densities x 16 solver configurations exported by TLC, sampled by VERIF_SEED plus one cold+prev walk per configuration; non-trivial = some solve restarts from a previous or perturbed density", "exhaustive": False,
             "bounds": {"K": K, "FLOOR": FLOOR},
         }
         return rep.finish(cov, assumptions=["premise of the property: single stable closed-shell solution (small near-equilibrium molecules)", "constants K calibrated, not derived", "monotone approach under tightening: monitored with the max(previous, K*eps) rule"])
